@@ -12,7 +12,10 @@ CHECKS = {
         text="Seeded search over (schema, valid document, variables, resolver data, concurrency config, schedule); every run "
              "executes the real engine under SimLoop and compares data (key order, Python types) and the resolver-call history "
              "with a sequential transcription of the June-2018 execution algorithm. Sampling, not proof.",
-        note="Trusts the reference executor, the Python parser stub (C library absent) and the generator bounds."),
+        note="Trusts the reference executor, the Python parser stub (C library absent) and the generator bounds. Engine construction "
+             "(create_engine / Engine+cook variants, custom default resolver / type resolver / json loader, respelt SDL) is a swarm "
+             "dimension. One known finding (@skip with a null variable drops the selection), attributed only when the response equals "
+             "the reference plan with exactly that deviation."),
 }
 
 CHECKS.update({
@@ -24,7 +27,9 @@ CHECKS.update({
              "random subsets. Each faulty execution runs on the real engine under its own seeded schedule and is compared with the "
              "reference executor given the same faults and with the engine's own fault-free response. Exhaustive per generated "
              "request only; requests themselves are sampled.",
-        note="Set inclusion for the number of errors under an already-doomed ancestor; messages compared only for injected tokens and library errors."),
+        note="Set inclusion for the number of errors under an already-doomed ancestor; messages compared only for injected tokens and library errors. "
+             "One known finding (a resolver failing with a non-Exception BaseException / foreign CancelledError is not contained), injected "
+             "in a dedicated execution and classified by mode."),
     "C08": dict(
         level="exploration", design="DESIGN.md section 5 C08",
         technique="deterministic simulation: seeded schedulers (random, FIFO, LIFO, reverse, starvation, PCT) + exhaustive DFS over completion orders for small requests, cross-comparison of runs",
